@@ -448,6 +448,8 @@ def run_property(plan: Plan, tier: str, seed: int, contracts_mod_names, replay=N
         "backends": backends,
         "solver_time_s": round(sum(o.time for o in everything), 2),
         "solver_wall_s": round(solver_wall, 2),
+        "slowest_obligations": [{"obligation": o.name, "seconds": round(o.time, 2), "backend": o.backend}
+                                for o in sorted([x for x in mine if getattr(x, "time", 0)], key=lambda x: -x.time)[:3]],
         "refuted": [o.name for o in refuted], "undecided": [o.name for o in undec],
         "other_property_obligations_failing": [o.name for o in others_bad],
         "cover_checks": {o.name: o.result for o in everything if o.kind == "cover"},
